@@ -348,4 +348,34 @@ theorem outlinePixelsAligned_collapsed (t : Triangle) (c : Nat) (h : t.boundingB
       exact hlen
 
 end Triangle
+/-! ## edges in either orientation -/
+
+namespace Triangle
+
+/-- `l` is the edge between `a` and `b`, rasterised in one of its two directions. -/
+def IsEdge (l : Line) (a b : Pt) : Prop := l = ⟨a, b⟩ ∨ l = ⟨b, a⟩
+
+theorem IsEdge.symm {l : Line} {a b : Pt} (h : IsEdge l a b) : IsEdge l b a := Or.symm h
+
+/-- The three edges of a reordered triangle are the three edges of the triangle. -/
+theorem edges_of_orders {t s : Triangle} (h : s ∈ orders t) {l12 l23 l31 : Line}
+    (h12 : IsEdge l12 s.v1 s.v2) (h23 : IsEdge l23 s.v2 s.v3) (h31 : IsEdge l31 s.v3 s.v1) :
+    ∃ e1 e2 e3, IsEdge e1 t.v1 t.v2 ∧ IsEdge e2 t.v2 t.v3 ∧ IsEdge e3 t.v3 t.v1 ∧
+      ∀ p, (p ∈ Line.points l12 ∨ p ∈ Line.points l23 ∨ p ∈ Line.points l31) ↔
+        (p ∈ Line.points e1 ∨ p ∈ Line.points e2 ∨ p ∈ Line.points e3) := by
+  obtain ⟨a, b, c⟩ := t
+  rcases mem_orders.mp h with rfl | rfl | rfl | rfl | rfl | rfl <;> dsimp only at h12 h23 h31 ⊢
+  · exact ⟨l12, l23, l31, h12, h23, h31, fun p => Iff.rfl⟩
+  · exact ⟨l31, l23, l12, h31.symm, h23.symm, h12.symm, fun p => by
+      constructor <;> rintro (h | h | h) <;> simp [h]⟩
+  · exact ⟨l12, l31, l23, h12.symm, h31.symm, h23.symm, fun p => by
+      constructor <;> rintro (h | h | h) <;> simp [h]⟩
+  · exact ⟨l31, l12, l23, h31, h12, h23, fun p => by
+      constructor <;> rintro (h | h | h) <;> simp [h]⟩
+  · exact ⟨l23, l31, l12, h23, h31, h12, fun p => by
+      constructor <;> rintro (h | h | h) <;> simp [h]⟩
+  · exact ⟨l23, l12, l31, h23.symm, h12.symm, h31.symm, fun p => by
+      constructor <;> rintro (h | h | h) <;> simp [h]⟩
+
+end Triangle
 end EG
